@@ -177,7 +177,10 @@ Proof. exact op_refines_copyup. Qed.
 Theorem C10_op_refines_copyup_history : forall u ls nx ops o, Forall layer_ok (u :: ls) -> coh_history ops = true ->
   direct_cu (run_dumps ops (load_all (fresh (Some u) ls nx))) o = true -> op_refines (Some u) ls nx ops o.
 Proof. exact op_refines_copyup_history. Qed.
-(* non-vacuity, and the hypotheses are needed: below y/ (user xattr) and s/ (mode 04755) the refinement really fails *)
+(* non-vacuity, and the xattr hypothesis is needed: below y/ (user xattr) the refinement really fails.  Below s/ (mode 04755)
+   it failed until 61854eb (copy-up of a directory dropped set-uid / set-gid bits); with the repaired create_upper_dir of the
+   model it holds there too, although [direct_cu] (hypothesis "mode within 01777") still excludes that case: the hypothesis is
+   now stronger than needed. *)
 Example C10_op_refines_copyup_nonvacuous :
   let u := Dir 493 [] [("d", Dir 493 [] [])] in
   let l := Dir 493 [] [("d", Dir 448 [] [("e", Dir 448 [] [("g", Dir 493 [("user.overlay.opaque", [121])] [])])]); ("z", Dir 493 [] []);
@@ -191,7 +194,7 @@ Example C10_op_refines_copyup_nonvacuous :
                          OMkdir ["d"; "n"] 493] = true /\
   forallb (fun o => negb (direct_cu s o)) [OMkdir ["y"; "n"] 493; OMkdir ["y"; "q"; "n"] 493; OCreate ["s"; "c"] 420; OMkdir ["z"] 493;
                                           OMkdir ["w"; "n"] 493] = true /\
-  forallb fails [OMkdir ["y"; "n"] 493; OMkdir ["y"; "q"; "n"] 493; OCreate ["s"; "c"] 420] = true /\
+  forallb fails [OMkdir ["y"; "n"] 493; OMkdir ["y"; "q"; "n"] 493] = true /\ fails (OCreate ["s"; "c"] 420) = false /\
   upper (run_op (OCreate ["d"; "e"; "c"] 420) s) = Some (Dir 493 [] [("d", Dir 493 [] [("e", Dir 448 [] [("c", File 1000 420 [] [])])])]).
 Proof.
   cbv zeta. split; [|vm_compute; repeat split; reflexivity].
